@@ -98,12 +98,24 @@ CHECKS = {
         "Every AST of the bounded pool and every hand-built constant/configuration is rebuilt through repr/eval, pickle and deepcopy and compared structurally (with coordinates for pickle/deepcopy), by generated text, by node identity and under mutation of the copy.",
         "Bounded pool; constant bodies <= 3 characters.",
         "DESIGN.md §5 C15", "sweep"),
+    "C16": (
+        "exploration",
+        "exhaustive sweep of a construct catalogue: every repeatable construct and every nestable construct alone, and every ordered pair of nestable constructs nested alternately, at doubling sizes; deterministic step counts (call events) as cost function; CPU-time families for every lexer regex",
+        "For every family of the catalogue (68 repeatable, 60 nestable constructs and all 3600 ordered pairs) the parser's deterministic step count is measured at doubling sizes and the marginal cost must not grow (s(4k)-s(2k) <= 2.5 (s(2k)-s(k))); 66 adversarial lexer families are timed with wide margins. Every family member must be accepted.",
+        "Bounded by the catalogue and the largest size run; call counts do not see loops that make no calls (recorded in the evidence); lexer part uses CPU time with a 50x margin.",
+        "DESIGN.md §3.F, §5 C16", "family"),
     "C17": (
         "exploration",
         "exhaustive sweep of every pool program x every whole-layout variant and every single-gap deviation (4 separators, 3 directive forms; pairs in thorough), and of every expression-model tree x every single redundant parenthesis pair",
         "Every distinct token sequence of the bounded pool is re-laid out in every single-gap way (newline, tab, blanks, mixed, linemarker, #line with and without file) and in whole-layout variants; every expression-model tree gets one redundant pair of parentheses at every non-comma position. Canonical AST (no coordinates) and regenerated text must equal the default layout's.",
         "Bounded pool (programs <= 40/80 tokens plus small corpus files); pairs of deviations only in the thorough tier.",
         "DESIGN.md §5 C17", "lexref"),
+    "C19": (
+        "exploration",
+        "exhaustive configuration sweep: every fake libc header x 4 dialects x both cpp_args forms through parse_file, all-in-one in both orders, every typedef name used as a type (thorough: all ordered header pairs)",
+        "Every header found under utils/fake_libc_include is included alone in a generated file and run through pycparser.parse_file(use_cpp=True) under -std=c99/c11/gnu99/gnu11 with cpp_args as a string and as a list; all headers together in directory order and reversed; a unit declaring an object of every typedef name of _fake_typedefs.h. The result must equal preprocessing and parsing by hand.",
+        "The grid is finite and covered completely; ordered pairs of headers only in the thorough tier; the system cpp (gcc 12) is trusted.",
+        "DESIGN.md §5 C19", "sweep"),
     "C18": (
         "model_checking",
         "TokEx invariant 'accepted => brackets balanced' on every explored token string (full vocabulary and a bracket-heavy vocabulary to a deeper bound), plus exhaustive single-bracket mutations and non-token injections of every pool program",
@@ -116,7 +128,7 @@ PENDING = {
 }
 
 ALL = [f"C{i:02d}" for i in range(1, 20)]
-ENABLED = ["C01", "C03", "C06", "C07", "C08", "C09", "C10", "C11", "C12", "C13", "C14", "C15", "C17", "C18"]
+ENABLED = [f"C{i:02d}" for i in range(1, 20)]
 
 
 def main():
@@ -166,6 +178,12 @@ def main():
              "kind_free_text": "deviation-bounded DFS over schedules with a thread-baton cooperative scheduler"},
             {"name": "lexref", "path": "/verif/models/lexref.py", "serves_properties": ["C09", "C10", "C11", "C17"],
              "kind_free_text": "hand-written three-valued C99 reference lexer + layout model"},
+            {"name": "family", "path": "/verif/mc/family.py", "serves_properties": ["C16"],
+             "kind_free_text": "deterministic cost functions (call-event counts via sys.monitoring) over scalable input families"},
+            {"name": "pool", "path": "/verif/mc/progpool.py", "serves_properties": ["C07", "C11", "C14", "C15", "C17", "C18"],
+             "kind_free_text": "bounded deterministic program pool: TokEx-accepted strings, model sentences, corpus and its accepted 1-token edits"},
+            {"name": "sweep", "path": "/verif/checks/", "serves_properties": ["C14", "C15", "C19"],
+             "kind_free_text": "exhaustive configuration sweeps over finite spaces"},
             {"name": "typed-gcc", "path": "/verif/models/typed_model.py", "serves_properties": ["C08", "C01"],
              "kind_free_text": "typed program model with gcc as per-case oracle"},
         ],
